@@ -131,6 +131,27 @@ Theorem C20_gcc_single_latch_missing_panics : forall parse_file has_ext ext rena
   gi_run_ok it = true -> dir_lookup (expected ext it) (gi_left it) = None ->
   gcc_step parse_file has_ext ext rename guess GSingle [] it = Panic.
 Proof. exact step_single_missing_panics. Qed.
+(* a work item on which gcov FAILS (stale .gcda, unreadable notes file ...): whatever gcov left is removed, nothing is added,
+   the latch stays as it was *)
+Theorem C20_gcc_failed_step : forall parse_file has_ext ext rename guess ty d it,
+  gi_run_ok it = false -> gcc_step parse_file has_ext ext rename guess ty d it = Ok (ty, [], None).
+Proof. exact step_failed. Qed.
+(* with failing items anywhere, for every split over workers and lock order: the aggregation of the non-failing items *)
+Theorem C20_gcc_report_with_failures : forall parse_file has_ext ext rename guess m (parts : list (list gitem)) items bs,
+  Forall (fun w => behaved parse_file has_ext ext (good w)) parts -> concat parts ≡ₚ items ->
+  bs ≡ₚ concat (map (fun w => match gcc_worker parse_file has_ext ext rename guess GUnknown [] w with
+                              | Ok (_, _, b) => b | _ => [] end) parts) ->
+  obs_map (add_batches m bs) = obs_map (add_results m (flat_map (item_results parse_file rename guess) (good items))).
+Proof. exact gcc_report_with_failures. Qed.
+(* the report of a run with failing items equals the report of the same run without them *)
+Theorem C20_gcc_failed_item_contributes_nothing : forall parse_file has_ext ext rename guess m (parts : list (list gitem)) bs bs',
+  Forall (fun w => behaved parse_file has_ext ext (good w)) parts ->
+  bs ≡ₚ concat (map (fun w => match gcc_worker parse_file has_ext ext rename guess GUnknown [] w with
+                              | Ok (_, _, b) => b | _ => [] end) parts) ->
+  bs' ≡ₚ concat (map (fun w => match gcc_worker parse_file has_ext ext rename guess GUnknown [] w with
+                               | Ok (_, _, b) => b | _ => [] end) (map good parts)) ->
+  obs_map (add_batches m bs) = obs_map (add_batches m bs').
+Proof. exact gcc_failed_item_contributes_nothing. Qed.
 Theorem C20_batches_order_free : forall m bs bs',
   bs ≡ₚ bs' -> obs_map (add_batches m bs) = obs_map (add_batches m bs').
 Proof. exact add_batches_perm_obs. Qed.
@@ -181,3 +202,16 @@ Proof.
   - repeat constructor; set_solver.
   - repeat constructor; simpl; eauto.
 Qed.
+
+(* Refutation of the behaviour before fix 1aab954 (gcc_step_old: the output of a failed gcov run stays in the worker
+   directory): the item after a failed one, on the same worker, reports the failed item's file - so one worker and two
+   workers give different reports.  The current glue (gcc_worker) does not. *)
+Definition ex_bad : gitem := mkGitem [1] [2] false [([9; 46; 103], [66])].
+Definition ex_ok : gitem := mkGitem [3] [4] true [([8; 46; 103], [65])].
+Definition ex_files (o : outcome (gcov_type * wdir * list (list (name * cov)))) : list (list name) :=
+  match o with Ok (_, _, bs) => map (map fst) bs | _ => [] end.
+Example C20_gcc_old_failure_leaks_refuted :
+  ex_files (gcc_worker_old ex_pf ex_he [46; 103] (fun _ n => n) false GUnknown [] [ex_bad; ex_ok]) = [[[65]; [66]]]
+  /\ ex_files (gcc_worker_old ex_pf ex_he [46; 103] (fun _ n => n) false GUnknown [] [ex_ok]) = [[[65]]]
+  /\ ex_files (gcc_worker ex_pf ex_he [46; 103] (fun _ n => n) false GUnknown [] [ex_bad; ex_ok]) = [[[65]]].
+Proof. vm_compute. auto. Qed.
